@@ -1,6 +1,6 @@
 """C16 - the metadata store serves exactly what valid, unexpired metadata declares."""
 from harness import fixtures as F
-from veriflib.boot import Clock
+from veriflib.boot import Clock, concrete
 from veriflib.runner import Cond
 from saml2_tophat import md, samlp, saml, BINDING_HTTP_POST, BINDING_HTTP_REDIRECT, BINDING_SOAP
 from saml2_tophat import xmldsig as ds
@@ -198,6 +198,61 @@ def signed_md(signed: bool, wrapper: bool, has_cert: bool, outcome: int, twice: 
     return ok, True, "served=%r exc=%r calls=%d" % (served, exc, _Sec.calls)
 
 
+# ---- attribute requirements and entity categories ------------------------------------------------
+from saml2_tophat.extension import mdattr                 # noqa: E402
+ATTRS = ["urn:oid:2.5.4.42", "urn:oid:2.5.4.4", "urn:oid:0.9.2342.19200300.100.1.3"]
+CATS = ["http://refeds.org/category/research-and-scholarship", "http://www.geant.net/uri/dataprotection-code-of-conduct/v1"]
+
+
+def _sp_req(eid, req_mask, opt_mask, cat_mask, index):
+    ras = []
+    for i, n in enumerate(ATTRS):
+        if (req_mask >> i) & 1:
+            ras.append(md.RequestedAttribute(name=n, name_format=saml.NAME_FORMAT_URI, is_required="true"))
+        elif (opt_mask >> i) & 1:
+            ras.append(md.RequestedAttribute(name=n, name_format=saml.NAME_FORMAT_URI, is_required="false"))
+    acs = md.AttributeConsumingService(index=index, service_name=[md.ServiceName(text="svc", lang="en")], requested_attribute=ras)
+    ed = md.EntityDescriptor(entity_id=eid, spsso_descriptor=[md.SPSSODescriptor(
+        protocol_support_enumeration=samlp.NAMESPACE, attribute_consuming_service=[acs],
+        assertion_consumer_service=[md.AssertionConsumerService(binding=BINDING_HTTP_POST, location="http://b.example.com/acs", index="1")])])
+    cats = [c for i, c in enumerate(CATS) if (cat_mask >> i) & 1]
+    if cats:
+        ea = mdattr.EntityAttributes(attribute=[saml.Attribute(
+            name="http://macedir.org/entity-category", name_format=saml.NAME_FORMAT_URI,
+            attribute_value=[saml.AttributeValue(text=c) for c in cats])])
+        ed.extensions = md.Extensions(extension_elements=[saml2_tophat.element_to_extension_element(ea)])
+    return ed
+
+
+import saml2_tophat                                       # noqa: E402
+
+
+def requirements(req1: int, opt1: int, cat1: int, req2: int, opt2: int, cat2: int, qe: int):
+    """attribute_requirement() and entity_categories() return exactly what the queried SP's own
+    descriptor declares (two SPs with symbolic declarations), nothing of the other SP's."""
+    Clock(1000)
+    req1, opt1, cat1, req2, opt2, cat2, qe = [concrete(x) for x in (req1, opt1, cat1, req2, opt2, cat2, qe)]
+    s1 = InMemoryMetaData(None, "")
+    s1.do_entity_descriptor(_sp_req(B, req1, opt1, cat1, "1"))
+    s2 = InMemoryMetaData(None, "")
+    s2.do_entity_descriptor(_sp_req("urn:verif:sp:c", req2, opt2, cat2, "1"))
+    STORE.metadata = {"s1": s1, "s2": s2}
+    eid = [B, "urn:verif:sp:c", UNKNOWN][qe]
+    ar = STORE.attribute_requirement(eid)
+    try:
+        ec = STORE.entity_categories(eid)
+    except KeyError:
+        ec = None
+    if qe == 2:
+        return (ar is None) and (ec is None or ec == []), True, "unknown -> %r %r" % (ar, ec)
+    rq, op, ct = [(req1, opt1, cat1), (req2, opt2, cat2)][qe]
+    want_req = [n for i, n in enumerate(ATTRS) if (rq >> i) & 1]
+    want_opt = [n for i, n in enumerate(ATTRS) if not (rq >> i) & 1 and (op >> i) & 1]
+    ok = (ar is not None) and ([a["name"] for a in ar["required"]] == want_req) and ([a["name"] for a in ar["optional"]] == want_opt)
+    ok = ok and (sorted(ec or []) == sorted(c for i, c in enumerate(CATS) if (ct >> i) & 1))
+    return ok, True, "ar=%r ec=%r" % (ar, ec)
+
+
 # ---- whole documents through parse(): document-level and entity-level validUntil ---------------
 def _doc(doc_vu, ent_vu, wrapper):
     ed = _idp(A, LOC1, (True, False, False), ent_vu)
@@ -319,6 +374,15 @@ CONDITIONS = [
          pre=["0 <= outcome <= 2"], partitions={"quick": [{"twice": False}]}, timeout={"quick": 600, "thorough": 1200}, path_timeout=60,
          functions=["mdstore.MetadataStore.load('remote')", "mdstore.MetaDataExtern.load", "mdstore.InMemoryMetaData.parse_and_check_signature/parse/signed"],
          bounds="document signed/unsigned x EntitiesDescriptor/EntityDescriptor root x verification certificate configured or not x verification answers True / False / raises"),
+    Cond(name="requirements", fn="requirements",
+         params=[("req1", "int"), ("opt1", "int"), ("cat1", "int"), ("req2", "int"), ("opt2", "int"), ("cat2", "int"), ("qe", "int")],
+         pre=["0 <= req1 < 8", "0 <= opt1 < 8", "0 <= cat1 < 4", "0 <= req2 < 8", "0 <= opt2 < 8", "0 <= cat2 < 4", "0 <= qe <= 2"],
+         partitions={"quick": [{"qe": e, "req2": 5, "opt2": 2, "cat2": c} for e in range(3) for c in (0, 3)],
+                     "thorough": [{"qe": e, "cat2": c, "req2": r} for e in range(3) for c in range(4) for r in (0, 3, 5, 7)]},
+         timeout={"quick": 600, "thorough": 1200}, path_timeout=60,
+         functions=["mdstore.MetadataStore.attribute_requirement", "mdstore.InMemoryMetaData.attribute_requirement", "mdstore.attribute_requirement",
+                    "mdstore.MetadataStore.entity_categories/entity_attributes"],
+         bounds="two SPs in two sources, each with any subset of 3 attributes required / optional and any subset of 2 entity categories; query either SP or an unknown entity"),
     Cond(name="md_document", fn="md_document",
          params=[("has_doc_vu", "bool"), ("doc_vu", "int"), ("has_ent_vu", "bool"), ("ent_vu", "int"), ("wrapper", "bool"), ("now", "int")],
          pre=["0 < doc_vu <= 8589934592", "0 < ent_vu <= 8589934592", "0 < now <= 8589934592"],
